@@ -789,4 +789,101 @@ theorem decStream_exact (c : Cfg) (hc : c.strategy = .full) (hm : c.mapShort = t
     · simp [hn, Out.map]
     · simp [hn, hr]
 
+/-! ### panicking primitives; raw readers; truncated lists -/
+
+theorem goInt64 (n : Nat) (h : n < 2 ^ 32) : goInt 64 n = (n : Int) := by
+  have : n < 2 ^ (64 - 1) := by omega
+  simp [goInt, this]
+
+theorem nextChecked_nat (k : Nat) (bs : Bytes) : nextChecked (k : Int) bs = some (bufNext k bs) := by
+  have hneg : ¬ ((k : Int) < 0) := by omega
+  simp only [nextChecked, goNext, hneg, if_false, Option.map_some, Int.toNat_natCast, bufNext]
+  by_cases h : bs.length < k
+  · have h1 : ((bs.take k).length : Int) ≠ (k : Int) := by rw [List.length_take]; omega
+    rw [if_pos h1, if_pos h, List.drop_of_length_le (Nat.le_of_lt h)]
+  · have h1 : ¬ ((bs.take k).length : Int) ≠ (k : Int) := by rw [List.length_take]; omega
+    rw [if_neg h1, if_neg h]
+
+theorem decBufP_eq (ty : Ty) (bs : Bytes) : decBufP 64 ty bs = some (decBuf ty bs) := by
+  cases ty with
+  | str =>
+    simp only [decBufP, decBuf]
+    split
+    · rfl
+    · rename_i n rest _
+      rw [goInt64 _ (Nat.mod_lt _ (by decide)), nextChecked_nat]; rfl
+  | lstr l =>
+    simp only [decBufP, decBuf]
+    split
+    · rfl
+    · rename_i n rest _
+      split
+      · rfl
+      · rw [goInt64 _ (Nat.mod_lt _ (by decide)), nextChecked_nat]; rfl
+  | readN n =>
+    simp only [decBufP, decBuf]
+    split
+    · rfl
+    · rename_i h
+      have : ¬ n < 0 := by omega
+      simp [goMake, this]
+  | zreadN n =>
+    simp only [decBufP, decBuf]
+    split
+    · rfl
+    · rename_i h
+      have hn : ((n.toNat : Nat) : Int) = n := Int.toNat_of_nonneg (by omega)
+      have := nextChecked_nat n.toNat bs
+      rw [hn] at this
+      rw [this]; rfl
+  | _ => rfl
+
+theorem streamReadNP_eq (c : Cfg) (n : Int) (s : Src) : streamReadNP c n s = some (streamReadN c n s) := by
+  unfold streamReadNP streamReadN
+  split
+  · rfl
+  · rename_i h
+    have : ¬ n < 0 := by omega
+    simp [goMake, this]
+
+theorem rewrite_none_iff (pos : Int) (p buf : Bytes) : rewrite pos p buf = none ↔ (pos < 0 ∨ pos > buf.length) := by
+  unfold rewrite
+  split <;> simp_all
+
+/-! raw bytes through the three raw readers -/
+theorem raw_roundtrip_readN (p rest : Bytes) (h : p ≠ []) :
+    decBuf (.readN p.length) (p ++ rest) = (.ok (.raw p), rest) := by
+  have hl : ¬ ((p.length : Int) ≤ 0) := by
+    have : p.length ≠ 0 := fun h0 => h (List.length_eq_zero_iff.1 h0)
+    omega
+  simp only [decBuf, hl, if_false, Int.toNat_natCast, bufRead_append p.length p rest rfl, Out.map]
+
+theorem raw_roundtrip_zreadN (p rest : Bytes) :
+    decBuf (.zreadN p.length) (p ++ rest) = (.ok (.raw p), rest) := by
+  have hl : ¬ ((p.length : Int) < 0) := by omega
+  simp [decBuf, hl, bufNext_append p.length p rest rfl, Out.map]
+
+/-! truncation of the encoding of a list of values -/
+theorem truncated_list (vs : List Val) (h : ∀ v ∈ vs, Valid v) (n : Nat) (hn : n < (vs.flatMap enc).length) :
+    ∃ pre v post e tail, vs = pre ++ v :: post ∧
+      (pre.flatMap enc).length ≤ n ∧ n < (pre.flatMap enc).length + (enc v).length ∧
+      (readAll (vs.map tyOf) ((vs.flatMap enc).take n)).1 = pre.map .ok ++ .err e :: tail := by
+  induction vs generalizing n with
+  | nil => simp at hn
+  | cons v vs ih =>
+    have hv := h v (by simp)
+    simp only [List.flatMap_cons, List.length_append] at hn
+    by_cases hlt : n < (enc v).length
+    · obtain ⟨e, he⟩ := truncated_one v n hv hlt
+      refine ⟨[], v, vs, e, (readAll (vs.map tyOf) (decBuf (tyOf v) ((enc v).take n)).2).1, rfl, by simp, by simpa using hlt, ?_⟩
+      simp only [List.flatMap_cons, List.map_cons, readAll, List.map_nil, List.nil_append]
+      rw [List.take_append_of_le_length (Nat.le_of_lt hlt), he]
+    · have hge : (enc v).length ≤ n := by omega
+      obtain ⟨pre, w, post, e, tail, hvs, h1, h2, hr⟩ :=
+        ih (fun u hu => h u (by simp [hu])) (n - (enc v).length) (by omega)
+      refine ⟨v :: pre, w, post, e, tail, by simp [hvs], by simp only [List.flatMap_cons, List.length_append]; omega, by simp only [List.flatMap_cons, List.length_append]; omega, ?_⟩
+      simp only [List.flatMap_cons, List.map_cons, readAll]
+      rw [List.take_append, List.take_of_length_le hge, roundtrip_one v _ hv]
+      simp only [hr, List.cons_append]
+
 end Nv.C10
